@@ -561,11 +561,32 @@ def search_C07(tier, rng):
                 warnings.simplefilter('ignore')
                 mc = MosCollection.from_strings(docs, allow_incomplete=True)
                 stages.append(('before merge', mc))
+                err = None
                 try:
                     mc.merge(strict=strict)
                     stages.append(('after merge', mc))
-                except Exception:
+                except Exception as e:
+                    err = type(e).__name__
                     stages.append(('after the merge stopped at a failing message', mc))
+                # terminal: in strict mode a message behind the roDelete, and any message of a second merge() of a completed
+                # collection, is refused with MosCompletedMergeError itself (as `ro += msg` does), not with some other error
+                kinds_ = [k for k, _ in spec]
+                checks_ = []
+                if strict and 'roDelete' in kinds_ and kinds_.index('roDelete') < len(kinds_) - 1 and 'bad' not in kinds_:
+                    checks_.append(('strict merge of a message behind the roDelete', err))
+                if 'roDelete' in kinds_ and len(kinds_) > 2 and 'mosromgrmeta' in str(mc.ro):
+                    err2 = None
+                    try:
+                        mc.merge(strict=True)
+                    except Exception as e:
+                        err2 = type(e).__name__
+                    checks_.append(('second strict merge() of the completed collection', err2))
+                for label_, got_ in checks_:
+                    n += 1
+                    if got_ != 'MosCompletedMergeError':
+                        failures.append({'property': 'C07', 'fn': 'mosromgr.moscollection.MosCollection.merge', 'prefix': spec, 'kind': label_,
+                                         'what': '%s raised %s, not MosCompletedMergeError (%s, first merge strict=%s)' % (label_, got_, spec, strict),
+                                         'input_sha': _sha(json.dumps([spec, strict, label_]))})
             for label, c in stages[-1:] + [('before merge', MosCollection.from_strings(docs, allow_incomplete=True))]:
                 n += 1
                 real = 'mosromgrmeta' in str(c.ro)
